@@ -54,8 +54,8 @@ def trickle_history(rng, n):
 class C18(C06):
     ID = "C18"
     MODULE = "AwProofs.Props.C18"
-    THEOREMS = ["AwProofs.C18.age_flush", "AwProofs.C18.age_flush_includes_write", "AwProofs.C18.age_flush_insertMany_rows", "AwProofs.C18.age_flush_insertMany_upsert", "AwProofs.C18.at_risk_bounded", "AwProofs.C18.pending_young"]
-    LEVEL_TEXT = 'Lean 4 theorems on the commit machine with the clock reading as an input of every operation: age_flush / age_flush_includes_write (a single event write whose conditional commit runs more than 10 s after the last commit ends durable, itself included), age_flush_insertMany_upsert/rows, pending_young (every pending write was issued within 10 s after the last commit, monotone clock), at_risk_bounded; real store driven with a controllable clock in several process time zones, second-connection view after every write'
+    THEOREMS = ["AwProofs.C18.age_flush", "AwProofs.C18.age_flush_includes_write", "AwProofs.C18.age_flush_insertMany_whole", "AwProofs.C18.at_risk_bounded", "AwProofs.C18.pending_young"]
+    LEVEL_TEXT = 'Lean 4 theorems on the commit machine with the clock reading as an input of every operation: age_flush (EVERY event write - insert_one, insert_many with any mixture of upserts and new rows, replace, replace_last, delete - that returns more than 10 s after the last commit ends durable, itself included), age_flush_includes_write / age_flush_insertMany_whole (the durable state is the state after all elementary writes of the call), pending_young (every pending write was issued within 10 s after the last commit, monotone clock), at_risk_bounded; real store driven with a controllable clock in several process time zones, second-connection view after every write'
     LEVEL_NOTE = 'trusts: Lean kernel + 3 standard axioms; the clock is datetime.now() as read by the store (replaced by a controllable clock); SQLite commit durability'
     TECHNIQUE = "Lean 4 invariant proof over the commit machine with clock input + differential correspondence with a fake clock"
     RULE = (
@@ -78,24 +78,12 @@ class C18(C06):
         t_flush = out["start"]
         for j, (op, now, s) in enumerate(zip(out["resolved"], out["nows"], out["steps"])):
             durable = commitlib.norm_view(s["own"]) == commitlib.norm_view(s["second"])
-            if (not durable and op[0] == "bulk" and any(e[0] is not None for e in op[2]) and s["out"][0] == "ok"
-                    and now - t_flush > TEN):
-                # a bulk insert with upserts runs conditional_commit after each upsert: the first upsert is the
-                # write issued more than 10 s after the previous flush and must be durable; what follows it was
-                # issued 0 s after that flush (checked exactly against the model by the correspondence)
-                first = next(e for e in op[2] if e[0] is not None)
-                sec = commitlib.norm_view(s["second"])
-                evs = sec.get(op[1], {"events": []})["events"]
-                if [first[0], first[1], first[2], first[3]] not in evs:
-                    return (f"op {j} {json.dumps(op, ensure_ascii=False)[:120]}: its first upsert was issued "
-                            f"{(now - t_flush) / 1e6:.6f} s after the previous flush but is not durable")
-                t_flush = now
-                continue
             if commitlib.n_writes(op) > 0 and s["out"][0] == "ok" and now - t_flush > TEN and not durable:
                 return (f"op {j} {json.dumps(op, ensure_ascii=False)[:120]} was issued {(now - t_flush) / 1e6:.6f} s after the "
                         f"previous flush but is not durable when it returns")
-            if durable or (op[0] == "bulk" and any(e[0] is not None for e in op[2])):
-                # (a flush inside a bulk insert with upserts cannot be seen from outside: assume one happened)
+            if durable:
+                # (equal views without a flush - a write that changed nothing - only make the estimate of the last
+                # flush later than the real one, i.e. the demand above weaker, never wrong)
                 t_flush = now
         return None
 
